@@ -971,6 +971,10 @@ theorem join_example :
   a thread takes at most 3 own steps before it is published for good, so it goes round retract → re-check → re-publish
   at most once per round and the stopper never waits for it again).  Still not a theorem: that the steps are taken
   (fairness), progress of EACH thread.
+* Mutexes other than `threads` and the heap: the host root table is modelled in `LockOrder.lean` (a separate small
+  transition system, any number of mutators): `no_deadlock_stop_first` / `lock_first_deadlocks`, tied to the source by
+  `GenLocks.lean` (`spin_holds_no_unpublished_lock`, `heap_lock_inside_safepoint`).  Script mutexes (`lock-acquire!`),
+  the compiler `RwLock`, `receivers-select` and bounded channels are not modelled.
 * Relaxed atomics (the model is sequentially consistent; the one store→load pair of the repaired handshake:
   `C15.R.Litmus`), wall-clock bounds.
 All of these are covered only by the program-level differential run (checks/c16.py). -/
